@@ -462,3 +462,82 @@ func VerifC05CrashInRecovery() {
 	vCrashAt(1 << 40) // no further crash
 	vRecoverAndCheck(dir, opts, e)
 }
+
+// vDoubleCrash: a maintenance operation (1 Truncate, 2 retention Clean,
+// 3 compacting Clean) crashes after its k-th effect, the reopening crashes
+// after its j-th effect (both symbolic); the next reopening must satisfy the
+// same oracle as after a single crash of that workload.
+func vDoubleCrash(workload int) {
+	dir := vTempDir()
+	seg := vNondetInt64("segbytes")
+	vAssume(seg >= 40)
+	vAssume(seg <= 200)
+	opts := vOpts(dir, seg)
+	switch workload {
+	case 2:
+		opts.MaxLogMessages = 1
+	case 3:
+		opts.Compact = true
+		opts.CompactMaxGoroutines = 1
+	}
+	n := vParam("msgs", 3)
+	var e vCrashExpect
+	l := vBuildLog(opts, n, &e)
+	t := int64(n)
+	switch workload {
+	case 1:
+		t = vNondetInt64("trunc")
+		vAssume(t >= 0)
+		vAssume(t <= int64(n))
+		t = vConcretize64(t)
+		l.SetHighWatermark(t - 1)
+		vAssert(l.(*commitLog).checkpointHW() == nil, "HW checkpoint succeeds")
+		e.preHW = t - 1
+		e.mustHave = int(t)
+	case 2:
+		segs := l.(*commitLog).Segments()
+		e.mustFrom = int(segs[len(segs)-1].BaseOffset)
+		e.mustHave = n
+		l.SetHighWatermark(int64(n - 1))
+		e.preHW = int64(n - 1)
+	case 3:
+		hw := int64(n - 1)
+		l.SetHighWatermark(hw)
+		e.preHW = hw
+		segs := l.(*commitLog).Segments()
+		e.keepAll = vSurvivors(e.attempted, hw, segs[len(segs)-1].BaseOffset)
+		e.mustHave = n
+		e.gaps = true
+	}
+	k := vNondetInt("crash-after-effect")
+	vAssume(k >= 1)
+	crashed := vCrashRun(func() {
+		vCrashAt(k)
+		if workload == 1 {
+			vAssert(l.Truncate(t) == nil, "Truncate succeeds")
+		} else {
+			vAssert(l.Clean() == nil, "Clean succeeds")
+		}
+	})
+	vAssume(crashed)
+	vKillOthers()
+	vCover("crashed")
+	j := vNondetInt("crash-after-recovery-effect")
+	vAssume(j >= 1)
+	vCrashAt(j)
+	crashedAgain := vCrashRun(func() {
+		o := opts
+		o.Path = dir
+		_, err := New(o)
+		vAssert(err == nil, "reopening the log after a crash succeeds")
+	})
+	vAssume(crashedAgain) // the single-crash case is the workload's own harness
+	vKillOthers()
+	vCover("crashed-in-recovery")
+	vCrashAt(1 << 40) // no further crash
+	vRecoverAndCheck(dir, opts, e)
+}
+
+func VerifC05TruncateCrashTwice()  { vDoubleCrash(1) }
+func VerifC05RetentionCrashTwice() { vDoubleCrash(2) }
+func VerifC05CompactCrashTwice()   { vDoubleCrash(3) }
